@@ -1,6 +1,7 @@
 package main
 
 import (
+	"encoding/base64"
 	"encoding/json"
 	"fmt"
 	"path/filepath"
@@ -16,6 +17,7 @@ type pdCase struct {
 	Workspace bool              `json:"workspace"` // initialise with the case directory as workspace root
 	Doc       string            `json:"doc"`       // relative path of the document to open
 	Text      string            `json:"text"`      // its text (may differ from what is on disk)
+	B64       string            `json:"b64"`       // the text as base64 when it is not valid UTF-8 (takes precedence)
 	Settings  json.RawMessage   `json:"settings"`  // initializationOptions
 }
 
@@ -59,6 +61,13 @@ func init() {
 			}
 			if err := writeFiles(dir, c.Files); err != nil {
 				return nil, err
+			}
+			if c.B64 != "" {
+				raw, err := base64.StdEncoding.DecodeString(c.B64)
+				if err != nil {
+					return nil, err
+				}
+				c.Text = string(raw)
 			}
 			var opts any
 			if len(c.Settings) > 0 {
